@@ -1,9 +1,9 @@
 from checks.common import *
 
 SPEC = {
-    "translators": ["gen_conc"],
+    "translators": ["gen_conc", "gen_scanstate"],
     "bins": ["c13"],
-    "model_targets": ["Conc/InterleaveCheck.vo"],
+    "model_targets": ["Conc/InterleaveCheck.vo", "Gen/ScanState.vo"],
     "proof_targets": ["Conc/InterleaveProofs.vo"],
     "assumptions": [
         "every access to the shared state (engine OnceLock, INIT_HEARTBEAT Once, HEARTBEAT_COUNTER, engine epoch) is an atomic step of the model; data races on `static mut ENGINE`, the lifetime transmutes around the wasmtime store and wasmtime's own internals are run-time behaviour that a model cannot exhibit: for those the claim rests on the sampled real schedules only (partial)",
@@ -15,12 +15,13 @@ SPEC = {
     "trusted_base": ["Gen/ConcGen.v: DEFAULT_SCAN_TIMEOUT, the timeout_secs formula, the poll comparison and the heartbeat period, regenerated from lib/src/scanner/context.rs; the translator also checks the shapes of the deadline assignment, the heartbeat loop, INIT_HEARTBEAT/ENGINE statics",
                      "Gen/ConcGen.v shared_writes: every call site of increment_epoch / write to HEARTBEAT_COUNTER / set_epoch_deadline in lib/src (hook files verif_*.rs and the runtime abstraction lib/src/wasm/runtime/ excluded) with target and place; Props/C13.v proves clock_single_writer = true from it and instantiates the model's scanner-writes-the-engine-clock switch with its negation",
                      "hook Scanner::verif_timeout_at_poll / verif_timeout_fired (cfg yara_x_verif, builder-c04's tick hook) for the deterministic session",
-                     "thread-local module caches: only those of the hash module are exercised (two generated rules), and scanners never migrate between threads"],
+                     "Gen/ScanState.v (translate/gen_scanstate.py, shared with C04): per thread-local module cache, whether the staleness test first_use_in_scan precedes every access; Props/C13.v thread_local_caches_are_scan_scoped",
+                     "thread-local module caches exercised by the sessions: hash (main runs) and math's distribution cache (module output supplied by the user, ranges >= 4096 bytes, same-sized buffers), with two scanners alternating on each thread; the format modules' caches (pe/elf/macho/dex/crx hashes) are covered by the generated fact only; Scanner is not Send, so scanners never migrate between threads"],
 }
 
 RULE = ("first, a deterministic session through the tick hook (scanner::verif_state): scanner A is made to time out in its pattern search 400 times "
         "(its own 1 s deadline passes at its first ac_search_loop poll) while scanner B on another thread (timeout 700 s) evaluates a ~2 s condition loop: B must complete with its solo result, "
-        "400 simulated + a few real ticks cannot reach its deadline; then sessions in fresh child processes: 2..16 threads x 5-18 seeded operations each (Scanner::new / drop, scan of one of 6 generated buffers with a scanner on the shared Rules "
+        "400 simulated + a few real ticks cannot reach its deadline; then sessions in fresh child processes: 2..16 threads x 5-18 seeded operations each (Scanner::new / drop, scan of one of 9 generated buffers (three of the same size 8192 with different content) with one of TWO scanners alternating on the thread, on the shared Rules, optionally with the math module's output supplied by the user, "
         "with no timeout / 1 s / 3 s / 1000 s, a scan of a rule that never finishes with a 1-2 s timeout, Compiler::build of one of 3 source variants followed by a scan, "
         "Rules::deserialize_from followed by a scan); rules: 12 templates (text/regexp/hex/xor/wide/nocase patterns, loops, filesize, private, hash module); half of the sessions are cold: "
         "the first use of the process-wide engine (deserialize/build in all threads behind a barrier) and of the heartbeat thread (first timeout scans racing) happens in the concurrent phase "
@@ -49,7 +50,7 @@ MANIFEST = {
                    "2..16 threads, scans with and without timeouts, builds, deserializations, first use of engine and heartbeat inside the concurrent phase) are compared scan by scan "
                    "with the sequential oracle and with the model's prediction of the allowed result classes."),
     "level_note": ("Partial: data races on `static mut ENGINE`, lifetime transmutes and wasmtime internals are run-time behaviour that the model cannot exhibit; for them the check only "
-                   "samples real schedules. Trusted: Coq kernel, gen_conc.py, the harness and its canonical dump. Of the thread-local module caches only the hash module's are exercised; scanners do not migrate between threads."),
+                   "samples real schedules. Trusted: Coq kernel, gen_conc.py, the harness and its canonical dump. Thread-local module caches: hash and math (with supplied module output) are exercised with two scanners alternating per thread; the format modules' caches rest on the generated staleness-test table only."),
     "technique": "Coq proof (projection / invariants) over an interleaving LTS with source-generated constants + differential concurrent sessions vs a sequential oracle",
     "design_ref": "DESIGN.md section 4, C13",
 }
